@@ -96,7 +96,8 @@ func drawC19(rt *rapid.T) (*c19Case, *gspec.Grammar) {
 		g = gspec.GrammarGen(gspec.Profile(prof)).Draw(rt, "grammar")
 		c.Kind = prof
 	}
-	c.Text = gspec.Print(g, gspec.PrintOpts{StubCode: true})
+	// (several rules on one source line: nothing may depend on positions being distinct per line)
+	c.Text = gspec.Print(g, gspec.PrintOpts{StubCode: true, Layout: gspec.U(rt, 3, "layout")})
 	c.Flags.OptimizeGrammar = gspec.U(rt, 2, "optgrammar") == 0
 	c.Flags.OptimizeParser = gspec.U(rt, 3, "optparser") == 0
 	c.Flags.BasicLatin = gspec.U(rt, 3, "latin") == 0
